@@ -142,6 +142,13 @@ fixed("C08", "C08:none-early", "33b8f61",
       "send(timeout) returned None before the timeout - schedule dependent, found by the concurrent histories",
       [json.load(open(os.path.join(os.path.dirname(os.path.abspath(__file__)), "known_witnesses", "C08-none-early.json")))])
 
+fixed("C06", "C06:iteration", "a7e388d",
+      "f[len(f)] returned an empty FmtStr instead of raising IndexError, so iterating a FmtStr yielded one extra empty item",
+      [{"op": "iterate", "spec": [["ab", RED], ["c", BLUE]]}, {"op": "iterate", "spec": []}])
+fixed("C15", "C15:join", "a7e388d",
+      "sep.join(a FmtStr) ended with a trailing separator (same root cause: the FmtStr iterated to one extra empty item)",
+      [{"method": "join", "sep": [[",", RED]], "items": [[["ab", BLUE], ["c", {}]]], "iterable": "fmtstr"}])
+
 known("C03", "C03:prefix-then-undecodable-byte",
       "get_key raises UnicodeDecodeError for a table-sequence prefix (e.g. ESC) followed by a byte >= 0x80 "
       "that does not decode: ESC + any 8-bit byte under ascii, ESC + a UTF-8 lead/continuation byte under utf-8",
